@@ -1,6 +1,6 @@
 """C14: version gating follows semantic versioning in the runtime and in the emulator."""
 import os, re, itertools, subprocess, json, shutil
-from lib.common import Ctx, Build, Scratch, InfraError, pmap
+from lib.common import Ctx, Build, Scratch, InfraError, pmap, plan_of
 from lib import emusrv, catalog, obs
 from lib.emusrv import Ev, i32, i64
 
@@ -31,6 +31,8 @@ PROBE = {"nosv": ("VAr", "VAR"), "nanos6": ("6W[", "6W]"), "nodes": ("DR[", "DR]
 
 def run(prop, tier):
     ctx = Ctx("C14", tier, "model_checking")
+    tier = plan_of("C14", tier)
+    ctx.cov["plan"] = tier
     scratch = Scratch("C14")
     try:
         build = Build()
